@@ -27,7 +27,7 @@ def eq_of(prog: Program, K: str):
     fi = prog.resolve_method(K, "__eq__")
     if fi is None:
         raise AnalysisError(f"{K}.__eq__ does not resolve")
-    return fi
+    return prog.specialise(fi, K)
 
 
 def search_call(fi) -> ast.Call:
@@ -115,6 +115,11 @@ def check_eq_sym(prog: Program, res: Result) -> None:
                             f"[{s}, {o}]")
         want = FLAGS[K]
         got = (norm(kw.get("stereo")), norm(kw.get("stereo_change")))
+        # a flag that is not passed has the default of the search: False
+        got = tuple("False" if g == "<none>" else g for g in got)
+        if any(k.arg is None for k in call.keywords):
+            raise AnalysisError(f"{fi.short}: the search is called with "
+                                "**options that are not a literal")
         if got != want:
             problems.append(f"flags (stereo, stereo_change) = {got}, class "
                             f"table says {want}")
@@ -161,7 +166,8 @@ def check_eq_sym(prog: Program, res: Result) -> None:
                 rule = "R-LABEL-FLOW" if ("refined" in pr or "label_hash" in pr
                                           or "keyed" in pr) else "R-EQ-SYM"
                 res.bad(rule, f"{fi.short}: {pr[:80]}", fi.loc(call),
-                        f"{inst}: {pr}", instance=inst + " " + pr[:40])
+                        f"{inst}: {pr}", instance=inst + " " + pr[:40],
+                        context=["<specialised>"])
         else:
             res.ok("R-EQ-SYM", inst, fi.loc(call))
             res.ok("R-LABEL-FLOW", inst, fi.loc(call))
@@ -179,6 +185,7 @@ def check_empty_guard(prog: Program, res: Result) -> None:
             fi = prog.resolve_method(K, meth)
             if fi is None:
                 raise AnalysisError(f"{K}.{meth} does not resolve")
+            fi = prog.specialise(fi, K)
             names = fi.params()[:2] if meth == "__eq__" else fi.params()[:1]
             heavy = [n for n in ast.walk(fi.node) if isinstance(n, ast.Call)
                      and (call_name(n) or "").startswith(("color_refine",
